@@ -13,7 +13,7 @@ import declspace as ds
 import whitebox as wb
 
 
-def enumerate_decls(nmax, seed, cap=None, p_fall=0.5):
+def enumerate_decls(nmax, seed, cap=None, p_fall=0.5, constructs=False):
     """all DAGs on n <= nmax topologically numbered providers x every Async subset; fallible flags seeded"""
     rng = random.Random(seed * 31 + 5)
     out = []
@@ -28,6 +28,51 @@ def enumerate_decls(nmax, seed, cap=None, p_fall=0.5):
         small = [d for d in out if len(d['providers']) < nmax]
         big = [d for d in out if len(d['providers']) == nmax]
         out = small + rng.sample(big, max(0, cap - len(small)))
+    if constructs:
+        # the same shapes with one provider turned into (S) a struct that is expanded - its consumers read a field - or
+        # (M) a provider with two results, the second one consumed by the provider of the requested type: every such
+        # variant of the declarations with <= 3 providers, a seeded sample of the larger ones
+        rc = random.Random(seed * 17 + 3)
+        small, big = [], []
+        for d in out:
+            (small if len(d['providers']) <= 3 else big).extend(construct_variants(d))
+        out = out + small + rc.sample(big, min(len(big), 250 if nmax <= 4 else 1200))
+    return out
+
+
+def construct_variants(d):
+    """struct-expansion and two-result variants of a plain function-provider declaration (see enumerate_decls)"""
+    import copy
+    out = []
+    n = len(d['providers'])
+    for i, p in enumerate(d['providers']):
+        t = p['provides'][0][0]
+        consumed = any(t in q['requires'] for q in d['providers']) or d['ret'] == t
+        if not consumed:
+            continue
+        # (S) Pi returns a struct S<i>{Fa T<i>; Fb U<i>} which is expanded
+        v = copy.deepcopy(d)
+        sname, uname = 'S%d' % i, 'U%d' % i
+        v['types'][sname] = {'form': 'val', 'fields': [['Fa', t], ['Fb', uname]]}
+        v['types'][uname] = {'form': 'val'}
+        v['providers'][i]['provides'] = [[sname]]
+        v['providers'].append({'id': 'X%d' % i, 'kind': 'structexp', 'requires': [], 'provides': [], 'async': False, 'fallible': False,
+                               'wrap': 'async-bind', 'struct': sname})
+        v['layout'] = list(v['layout']) + ['X%d' % i]
+        v['id'] = '%ss%d' % (d['id'], i)
+        v['injector'] = 'Init_' + v['id']
+        if ds.accepts(v) and v['ret'] in ds.suppliers(v):
+            out.append(v)
+        # (M) Pi has a second result U<i>, which the provider of the requested type consumes as well
+        if i != n - 1 and d['providers'][n - 1]['provides'][0][0] == d['ret']:
+            v = copy.deepcopy(d)
+            v['types'][uname] = {'form': 'ptr'}
+            v['providers'][i]['provides'] = [[t], [uname]]
+            v['providers'][n - 1]['requires'] = list(v['providers'][n - 1]['requires']) + [uname]
+            v['id'] = '%sm%d' % (d['id'], i)
+            v['injector'] = 'Init_' + v['id']
+            if ds.accepts(v) and v['ret'] in ds.suppliers(v):
+                out.append(v)
     return out
 
 
@@ -153,7 +198,7 @@ def planner_conformance(work, decls, progs_by_id, name='plannercheck'):
 
 def explore(work, prop, clauses, modes, signature, nmax, seed, cap=None, p_fall=0.5):
     """-> (decls, progs, sigs {sig: [(decl id, mode, flag)]}, states, transitions)"""
-    decls = enumerate_decls(nmax, seed, cap, p_fall)
+    decls = enumerate_decls(nmax, seed, cap, p_fall, constructs=True)
     progs = plan(work, decls)
     flags, st, tr, _ = wb.model_check(work, decls, progs, modes='none' if modes == 'none' else None, name='design')
     byid = {d['id']: d for d in decls}
@@ -243,7 +288,7 @@ def fallible_variants(d):
         v['id'] = '%sf%d' % (d['id'], k)
         v['injector'] = 'Init_' + v['id']
         for i, p in enumerate(v['providers']):
-            p['fallible'] = (k == n) or (i == k)
+            p['fallible'] = ((k == n) or (i == k)) and p['kind'] == 'fn'
         out.append(v)
     return out
 
